@@ -361,7 +361,7 @@ def block_schedule(dc, sc, res, rng, label):
     nreaders = rng.randrange(1, 3)
     n = nwriters + nsingle + nreaders
     caches = [setup if shared else dc.Cache(d, timeout=0) for _ in range(n)]
-    sch = Sched(rng, clock, strategy=rng.choice(['random', 'preempt', 'random']),
+    sch = Sched(rng, clock, strategy=rng.choice(['random', 'preempt', 'random', 'ops']),
                 preempt_points={rng.randrange(0, 150) for _ in range(3)})
     rec = Recorder(sch)
     obs = observe.Observer(d)
